@@ -2,6 +2,7 @@
 from __future__ import annotations
 
 import ast
+import re
 from typing import Dict, List, Optional, Set, Tuple
 
 from .. import cfg as C
@@ -25,7 +26,15 @@ EXPLANATION = (
     "unsimplified text). C08.operands: operands of each of the three kinds are handled, reach the returned text, and reach it through "
     "the operand's own text (untyped_representation / str / print / to_pddl) or through all of its identifying parts. The printers are "
     "analysed after flattening plus the local normalisations of _c08_util (generators at eager consumers, local tables, records and "
-    "constant-key dicts split into locals, str.format / % templates written as f-strings), so the way the text is assembled is immaterial."
+    "constant-key dicts split into locals, str.format / % templates written as f-strings), so the way the text is assembled is immaterial. "
+    "C08.sections: for a collection of one element and for one of two or more (the printer's size tests evaluated for that size) every text "
+    "extract_domain / effects_to_pddl can return contains a piece made from the collection. C08.returns: no path through a printer (or through "
+    "an inlined helper that produces its text) ends without returning a text. C08.allconstants / C08.alltypes: the grouping walks skip only the "
+    "entry named 'object' and never stop early. C08.switch: for each value of should_simplify every local the condition printer reads is bound, "
+    "every kind of operand reaches the text through its own text, and with should_simplify=False numeric operands do not pass the simplifier; "
+    "C08.options also requires the exporter to ask for should_simplify=False. C08.treetext: the two tree printers per kind of node (leaf / "
+    "fluent / float / integral valuations): operator position and operand order of inner nodes (TREE_LAYOUT), leaves never read children, "
+    "fluent leaves are their untyped text, non-integral numbers are never cut by int(), value and precision stand in their places."
 )
 UNDECIDED = "equality of vocabulary and behaviour after re-parsing; numeric precision; a second export/parse round"
 
@@ -184,6 +193,8 @@ def _views(paths, elem) -> Set[str]:
         for st in x[len(elem):]:
             if st.startswith("in:") or st in ("elem", "item") or st.startswith(("item:", "unpack:", "slice:")):
                 continue
+            if st.startswith("arg0:") and "call:" + st[5:] in WHOLE_VIEWS:
+                st = "call:" + st[5:]       # Cls.method(operand, ..) is operand.method(..)
             out.add(st)
             break
     return out
@@ -415,6 +426,37 @@ def rule_options(repo: Repo) -> RuleResult:
                 r.site(L.site(g, v, "nested print"))
                 r.fail(Finding("C08.options", g, role, f"{{{unparse(v.value)}}} prints with the default options (simplified, 2 digits): "
                                f"the domain exporter's should_simplify=False does not reach it", node=v))
+    # the exporter asks for the unsimplified text: the action's precondition is printed through print(..) with should_simplify False
+    w = U.fn(repo, "DomainExporter.write_action")
+    pw = L.prov(repo, w)
+    aparams = [x for x in w.params if x != w.self_name]
+    if aparams:
+        pre = (f"param:{aparams[0]}", "attr:preconditions")
+        for c in L.calls_in(w.node):
+            if not (isinstance(c.func, ast.Attribute) and callee_name(c) in ("print", "_print_self")):
+                continue
+            tr = _safe(pw, c.func.value)
+            if not tr or not all(x[:2] == pre for x in tr):
+                continue
+            r.site(L.site(w, c, "exporter's print"))
+            callee = next((m for k in ("CompoundPrecondition", "Precondition") for m in [repo.find_method(k, callee_name(c))]
+                           if m is not None and "should_simplify" in m.params), None)
+            a = L.arg_of(c, callee, "should_simplify", 0)
+            if a is None:
+                asked = callee.defaults.get("should_simplify") if callee is not None and hasattr(callee, "defaults") and isinstance(callee.defaults, dict) else None
+                v = L.is_true_const(asked) if asked is not None else True
+            else:
+                v = L.is_true_const(a)
+                if v is None:
+                    ta = _safe(pw, a)
+                    if ta and all(x in (("const:True",), ("const:False",)) for x in ta) and len(ta) == 1:
+                        v = next(iter(ta)) == ("const:True",)
+            if v is True:
+                r.fail(Finding("C08.options", w, "exporter-asks-simplified", f"{unparse(c, 70)} asks the condition printer to simplify: the top-level "
+                               f"precondition is rewritten by sympy (re-associated terms, rationals that the printer cannot convert back) instead of "
+                               f"being written as it is", node=c))
+            else:
+                r.ok({"call": unparse(c, 70), "should_simplify": False if v is False else "not a constant"})
     r.require_sites(2)
     return r
 
@@ -569,23 +611,25 @@ def rule_valuetext(repo: Repo, rid: str) -> RuleResult:
     return r
 
 
-def rule_allconstants(repo: Repo, rid: str = "C08.allconstants") -> RuleResult:
-    """every constant of the domain is written into (:constants ..): the only entry that may be skipped is the one NAMED 'object' (the
-    placeholder the parser keeps for the root type); a filter on anything else -- the constant's type, its position -- drops declarations"""
-    r = RuleResult(rid, "write_constants collects every constant except the entry named 'object'",
-                   "the re-parsed domain declares exactly the source's constants")
-    f = L.fn(repo, "DomainExporter.write_constants")
+def rule_allconstants(repo: Repo, rid: str = "C08.allconstants", spec: str = "DomainExporter.write_constants", what: str = "constant") -> RuleResult:
+    """every constant (type) of the domain is written into (:constants ..) / (:types ..): the only entry that may be skipped is the one NAMED
+    'object' (the placeholder the parser keeps for the root type); a filter on anything else -- the constant's type, its position --
+    drops declarations, and so does a walk that stops at that entry instead of going on with the next one"""
+    short = spec.split(".")[-1]
+    r = RuleResult(rid, f"{short} collects every {what} except the entry named 'object'",
+                   f"the re-parsed domain declares exactly the source's {what}s")
+    f = L.fn(repo, spec)
     p = L.prov(repo, f)
     g = C.cfg_of(f.node)
     cparam = [x for x in f.params if x != f.self_name]
     if not cparam:
-        raise AnalysisError("write_constants: parameter with the constants not found")
+        raise AnalysisError(f"{short}: parameter with the {what}s not found")
     root = f"param:{cparam[0]}"
     loops = [n for n in ast.walk(f.node) if isinstance(n, ast.For) and any(x[0] == root for x in _safe(p, n.iter))]
     comps = [n for n in ast.walk(f.node) if isinstance(n, ast.comprehension) and any(x[0] == root for x in _safe(p, n.iter))]
     r.site(f.qn)
     if not loops and not comps:
-        raise AnalysisError("write_constants: no walk over the constants found")
+        raise AnalysisError(f"{short}: no walk over the {what}s found")
 
     def is_name(e) -> bool:
         tr = _safe(p, e)
@@ -628,11 +672,494 @@ def rule_allconstants(repo: Repo, rid: str = "C08.allconstants") -> RuleResult:
             continue
         if not L.must_pass_in_loop(G, {"named_object": False}, lp, uses):
             bad = ("skip", lp)
-    if bad:
-        r.fail(Finding(rid, f, "constant-skipped", "a constant that is not the entry named 'object' can be left out of the (:constants ..) section "
+        elif any(L.leaves_loop_early(G, v, lp) for v in ({"named_object": True}, {"named_object": False})):
+            # the entry named 'object' is skipped, the walk goes on: the parser keeps that entry wherever the source declared it
+            bad = ("stop", lp)
+    if bad and bad[0] == "stop":
+        r.fail(Finding(rid, f, f"{what}-walk-left-early", f"the walk over the {what}s can end before the last one (at the entry named 'object' or "
+                       f"at another entry): every {what} after it is left out of the (:{what}s ..) section", node=bad[1]))
+    elif bad:
+        r.fail(Finding(rid, f, f"{what}-skipped", f"a {what} that is not the entry named 'object' can be left out of the (:{what}s ..) section "
                        "(a filter on something other than that name)", node=bad[1]))
     else:
-        r.ok({"constants": "all but the entry named 'object'"})
+        r.ok({f"{what}s": "all but the entry named 'object'"})
+    return r
+
+
+# views of a numeric operand that mean "rewritten by the simplifier" (the exporter asks for the text as it is: should_simplify=False)
+SIMPLIFIER_VIEWS = {"call:__copy__", "call:copy", "call:to_mathematical", "arg0:deepcopy"}
+OPERAND_CLASSES = ("Predicate", "NumericalExpressionTree", "Precondition")
+
+
+def rule_switch(repo: Repo, rid: str = "C08.switch") -> RuleResult:
+    """the condition printer under each value of its should_simplify switch (the exporter passes False, nested conditions and antecedents
+    are printed with the default True): every local it reads is bound, operands of every kind reach the text through their own text, and
+    with should_simplify=False a numeric operand is printed by to_pddl without passing the simplifier"""
+    from .c02 import ClassDispatch
+    r = RuleResult(rid, "for each value of should_simplify the condition printer prints every kind of operand through the operand's own text; "
+                   "unsimplified means to_pddl", "the exported precondition is the source's formula, literally when the exporter asks for it")
+    f = U.fn(repo, PRINT)
+    if "should_simplify" not in f.params:
+        raise AnalysisError(f"{PRINT}: parameter should_simplify not found")
+    p = L.prov(repo, f)
+    loops = [n for n in ast.walk(f.node) if isinstance(n, ast.For) and any(x == ("self", "attr:operands") for x in p.trace(n.iter))]
+    rets = [x for x in L.func_returns(f) if x.value is not None]
+    elem = ("self", "attr:operands", "elem")
+    sm = L.bool_param_atoms({"should_simplify": "simplify"})
+    dispatches = [D for D in (ClassDispatch(repo, f, p, lp) for lp in loops) if D.tests]
+    for v in (True, False):
+        r.site(f"{f.qn} [should_simplify={v}]")
+        G0 = L.Guards(f, sm)
+        if "simplify" not in G0.atoms_seen:
+            r.ok({"should_simplify": v, "switch_not_tested": True})
+            continue
+        ub = U.unbound_under(G0, {"simplify": v})
+        if ub:
+            r.fail(Finding(rid, f, f"local-unbound@should_simplify={v}", f"with should_simplify={v} the printer reads a local that no statement "
+                           f"on that path has bound ({unparse(ub[0], 40)!r}): UnboundLocalError for every condition printed this way", node=ub[0]))
+            continue
+        problems = []
+        for D in dispatches:
+            G = L.Guards(f, lambda e, D=D: (f"isa{id(e)}" if id(e) in D.tests else sm(e)))
+            for cls in OPERAND_CLASSES:
+                if not D.matches_any(cls):
+                    continue
+                val = dict(D.valuation(cls))
+                val["simplify"] = v
+                under = G.under(val)
+                views: Set[str] = set()
+                for rt in rets:
+                    try:
+                        views |= _views(p.trace(rt.value, under=under), elem)
+                    except (KeyError, RecursionError):
+                        views = {"?"}
+                        break
+                if "?" in views:
+                    continue
+                if not views:
+                    problems.append((f"operand-kind-dropped:{cls}@should_simplify={v}", f"with should_simplify={v} operands of class {cls} do not reach the returned text"))
+                elif not (views & WHOLE_VIEWS) and not (PART_VIEWS[cls] <= views):
+                    problems.append((f"operand-kind-partial:{cls}@should_simplify={v}", f"with should_simplify={v} operands of class {cls} reach the text only "
+                                     f"through {sorted(views)}: neither the operand's own text nor all of {sorted(PART_VIEWS[cls])}"))
+                elif v is False and cls == "NumericalExpressionTree" and views & SIMPLIFIER_VIEWS:
+                    problems.append((f"unsimplified-print-simplifies", f"with should_simplify=False numeric operands reach the text through {sorted(views)} "
+                                     f"instead of to_pddl: the exporter's literal text is rewritten (re-associated, sympy rationals raise KeyError)"))
+        if problems:
+            for role, text in problems[:2]:
+                r.fail(Finding(rid, f, role, text))
+        else:
+            r.ok({"should_simplify": v, "operands": "own text"})
+    r.require_sites(2)
+    return r
+
+
+# printer of an expression tree -> where the operator stands (the text the reader / the simplifier expects)
+TREE_LAYOUT = {
+    "NumericalExpressionTree.to_pddl": "prefix",          # PDDL: (op left right); construct_expression_tree reads item 0 as the operator
+    "NumericalExpressionTree.to_mathematical": "infix",   # the sympy front end of the simplifier reads (left op right)
+}
+TREE_TEXT = {"prefix": {"({op} {left} {right})", "({op} [{child}]*< >)"}, "infix": {"({left} {op} {right})"}}
+TRUNCATING_STEPS = ("arg0:int", "arg0:round", "arg0:floor", "arg0:trunc", "arg0:ceil")
+FUNCTION_LEAF_CLASS = "PDDLFunction"
+LIFTED_VIEW = "attr:untyped_representation"      # `(name ?x ?y)`: what the reader of a numeric expression accepts for a fluent
+
+
+def _after(path: tuple, step: str) -> Optional[tuple]:
+    return path[path.index(step) + 1:] if step in path else None
+
+
+def _tree_atoms(repo: Repo, f: FuncInfo, p):
+    """atoms of a tree printer: 'leaf' (the node has no children), 'func' (the leaf holds a fluent), 'float' (isinstance(value, float)),
+    'integer' (the number has no fraction) -- each recognised on provenance: tests on the node's `.is_leaf` / `.children`, on its `.value`"""
+    from .c02 import _classes_of
+
+    def is_value(e) -> bool:
+        tr = _safe(p, e)
+        return bool(tr) and all(x[-1] == "attr:value" or (len(x) > 1 and x[-2] == "attr:value" and x[-1] in ("arg0:float",)) for x in tr)
+
+    def is_children(e) -> bool:
+        tr = _safe(p, e)
+        return bool(tr) and all(x[-1] == "attr:children" and x.count("attr:children") == 1 for x in tr)
+
+    def number_of(e):
+        """e is the value, or float(value)"""
+        if isinstance(e, ast.Call) and isinstance(e.func, ast.Name) and e.func.id == "float" and len(e.args) == 1:
+            return is_value(e.args[0])
+        return is_value(e)
+
+    def matcher(e):
+        if isinstance(e, ast.Attribute) and e.attr == "is_leaf" and isinstance(e.ctx, ast.Load):
+            tr = _safe(p, e.value)
+            return "leaf" if tr and not any("attr:children" in x for x in tr) else None       # the printed node, not one of its children
+        if isinstance(e, ast.Attribute) and e.attr == "children" and isinstance(e.ctx, ast.Load) and is_children(e):
+            return "!leaf"
+        if isinstance(e, ast.Call) and isinstance(e.func, ast.Name) and e.func.id == "isinstance" and len(e.args) == 2 and is_value(e.args[0]):
+            cs = _classes_of(repo, f, e.args[1]) or []
+            if cs and all(FUNCTION_LEAF_CLASS in repo.mro(c) for c in cs if c in repo.classes) and all(c in repo.classes for c in cs):
+                return "func"
+            if cs == ["float"]:
+                return "float"
+            if cs and not any(c in repo.classes for c in cs):
+                return "plain"          # int / float / str / Number ...: a value of such a class is not a fluent
+            return None
+        if isinstance(e, ast.Call) and isinstance(e.func, ast.Attribute) and e.func.attr == "is_integer" and not e.args and number_of(e.func.value):
+            return "integer"
+        if isinstance(e, ast.Compare) and len(e.ops) == 1 and isinstance(e.ops[0], (ast.Eq, ast.NotEq)):
+            a, b = e.left, e.comparators[0]
+            neg = "!" if isinstance(e.ops[0], ast.NotEq) else ""
+            for x, y in ((a, b), (b, a)):
+                if isinstance(y, ast.Call) and isinstance(y.func, ast.Name) and y.func.id == "int" and len(y.args) == 1 and number_of(x) and number_of(y.args[0]):
+                    return neg + "integer"
+                if isinstance(x, ast.BinOp) and isinstance(x.op, ast.Mod) and number_of(x.left) and isinstance(x.right, ast.Constant) and x.right.value == 1 \
+                        and isinstance(y, ast.Constant) and y.value == 0:
+                    return neg + "integer"
+                if isinstance(x, ast.Call) and isinstance(x.func, ast.Name) and x.func.id == "len" and len(x.args) == 1 and is_children(x.args[0]) \
+                        and isinstance(y, ast.Constant) and isinstance(y.value, int):
+                    return (neg + "leaf") if y.value == 0 else (("!" if not neg else "") + "leaf" if y.value == 2 else None)
+        return None
+
+    return matcher, is_value, is_children
+
+
+def _precision_format(e: ast.AST):
+    """`f"{V:.{D}f}"`, `"{x:.{d}f}".format(x=V, d=D)`, `format(V, f".{D}f")`, `"%.*f" % (D, V)`  ->  (V, D) with D an expression or an int;
+    None when e is not a fixed-point format of one value"""
+    import string as _string
+
+    def spec_of(spec: ast.AST):
+        """'.{D}f' / '.3f' as the format_spec of an f-string -> D"""
+        if isinstance(spec, ast.Constant) and isinstance(spec.value, str):
+            m = re.fullmatch(r"\.(\d+)f", spec.value)
+            return int(m.group(1)) if m else None
+        if isinstance(spec, ast.JoinedStr):
+            vs = spec.values
+            if len(vs) == 1 and isinstance(vs[0], ast.Constant):
+                return spec_of(vs[0])
+            if len(vs) == 3 and isinstance(vs[0], ast.Constant) and vs[0].value == "." and isinstance(vs[1], ast.FormattedValue) \
+                    and isinstance(vs[2], ast.Constant) and vs[2].value == "f":
+                return vs[1].value
+        return None
+
+    if isinstance(e, ast.JoinedStr):
+        vs = [v for v in e.values if not (isinstance(v, ast.Constant) and v.value == "")]
+        if len(vs) == 1 and isinstance(vs[0], ast.FormattedValue) and vs[0].format_spec is not None:
+            d = spec_of(vs[0].format_spec)
+            return (vs[0].value, d) if d is not None else None
+        return None
+    if isinstance(e, ast.Call) and isinstance(e.func, ast.Name) and e.func.id == "format" and len(e.args) == 2:
+        d = spec_of(e.args[1])
+        return (e.args[0], d) if d is not None else None
+    if isinstance(e, ast.Call) and isinstance(e.func, ast.Attribute) and e.func.attr == "format" and isinstance(e.func.value, ast.Constant) \
+            and isinstance(e.func.value.value, str) and not any(isinstance(a, ast.Starred) for a in e.args) and all(k.arg for k in e.keywords):
+        try:
+            parsed = [x for x in _string.Formatter().parse(e.func.value.value)]
+        except ValueError:
+            return None
+        if len(parsed) != 1 or parsed[0][0] or parsed[0][1] is None or parsed[0][3]:
+            return None
+        kw = {k.arg: k.value for k in e.keywords}
+        auto = [0]
+
+        def arg(field: str):
+            if field == "":
+                i = auto[0]
+                auto[0] += 1
+                return e.args[i] if i < len(e.args) else None
+            if field.isdigit():
+                return e.args[int(field)] if int(field) < len(e.args) else None
+            return kw.get(field)
+
+        v = arg(parsed[0][1])
+        spec = parsed[0][2] or ""
+        m = re.fullmatch(r"\.(\d+)f", spec)
+        if m:
+            return (v, int(m.group(1))) if v is not None else None
+        m = re.fullmatch(r"\.\{([^{}]*)\}f", spec)
+        if m and v is not None:
+            d = arg(m.group(1))
+            return (v, d) if d is not None else None
+        return None
+    if isinstance(e, ast.BinOp) and isinstance(e.op, ast.Mod) and isinstance(e.left, ast.Constant) and e.left.value == "%.*f" \
+            and isinstance(e.right, ast.Tuple) and len(e.right.elts) == 2:
+        return e.right.elts[1], e.right.elts[0]
+    return None
+
+
+def rule_treetext(repo: Repo, rid: str = "C08.treetext") -> RuleResult:
+    """the printers of a numeric expression tree, decided per kind of node (valuations of: leaf / fluent / float / integral):
+    an inner node is '(' operator, left subtree, right subtree ')' in the order of TREE_LAYOUT with the subtrees taken from children[0] and
+    children[1]; a leaf never looks at children; a fluent leaf is its untyped (lifted) text; a number that is not integral is never cut by
+    int(); a fixed-point format formats the node's value with the requested number of digits"""
+    from .. import strshape as S
+    r = RuleResult(rid, "tree printers: operator position and operand order of inner nodes, fluent leaves untyped, non-integral numbers not truncated, "
+                   "value and precision in their places", "numeric conditions and effects denote the same expression after re-parsing, constants up to the stated decimals")
+    for spec, layout in TREE_LAYOUT.items():
+        f = U.fn(repo, spec)
+        p = L.prov(repo, f)
+        matcher, is_value, is_children = _tree_atoms(repo, f, p)
+        G = L.Guards(f, matcher)
+        ev = U.Evaluator(repo, f)
+        atoms = G.atoms_seen
+        r.site(f.qn)
+        problems: List[Tuple[str, str, Optional[ast.AST]]] = []
+        if "leaf" not in atoms:
+            r.ok({"printer": f.qn, "leaf_test": "not recognised: no claim"})
+            continue
+
+        def finals_under(val):
+            seen = G.reach(val)
+            return U.final_values(G, val, seen), G.under(val, seen)
+
+        # -- a leaf has no children
+        val = {"leaf": True}
+        seen = G.reach(val)
+        for n in ast.walk(f.node):
+            reads = None
+            if isinstance(n, ast.Subscript) and isinstance(n.ctx, ast.Load) and is_children(n.value):
+                reads = n
+            elif isinstance(n, (ast.For, ast.comprehension)) and is_children(n.iter):
+                reads = n.iter
+            elif isinstance(n, ast.Assign) and isinstance(n.targets[0], (ast.Tuple, ast.List)) and is_children(n.value):
+                reads = n.value
+            if reads is not None and G.reaches_expr(val, reads, seen=seen):
+                problems.append(("leaf-reads-children", f"a leaf can get as far as {unparse(n if isinstance(n, ast.Subscript) else reads, 50)}: a leaf has no children "
+                                 f"(IndexError), one of its kinds is not given a text of its own", reads))
+                break
+        # -- inner node: layout
+        finals, under = finals_under({"leaf": False})
+        for e, _at in finals:
+            if e is None:
+                continue
+            try:
+                sh = ev.string(e)
+            except Exception:
+                continue
+            if S.unknowns(sh):
+                continue
+
+            def hole(n):
+                inner = n.value if isinstance(n, ast.FormattedValue) else n
+                names = set()
+                for x in _safe_under(p, inner, under):
+                    rest = _after(x, "attr:children")
+                    if rest is not None and rest:
+                        names.add("left" if rest[0] in ("item:0", "unpack:0") else "right" if rest[0] in ("item:1", "unpack:1") else "child" if rest[0] == "elem" else "?")
+                    elif rest is None and ("attr:value" in x or "attr:id" in x):
+                        names.add("op")       # an inner node is built with id == value == the operator
+                return "+".join(sorted(names)) or "?"
+
+            text = re.sub(r"\s+", " ", S.render(sh, hole, under[0]))
+            if text not in TREE_TEXT[layout]:
+                problems.append(("inner-node-layout", f"an inner node is written as {text!r}; expected {sorted(TREE_TEXT[layout])[0]!r} ({layout}) with the subtrees "
+                                 f"taken from children[0] and children[1] in that order", e))
+                break
+        # -- fluent leaf
+        lifted = lambda tr: [x for x in tr if "attr:value" in x] and all((_after(x, "attr:value") or ("",))[0] == LIFTED_VIEW for x in tr if "attr:value" in x)
+        if "func" in atoms:
+            finals, under = finals_under({"leaf": True, "func": True, "float": False, "plain": False})
+            for e, _at in finals:
+                if e is None or not lifted(_safe_under(p, e, under)):
+                    problems.append(("fluent-leaf-not-lifted", f"a leaf that holds a fluent is written as {unparse(e, 50) if e is not None else None!r}, not as its "
+                                     f"untyped_representation: typed parameters inside an expression are read back as extra parameters", e))
+                    break
+        else:
+            finals, under = finals_under({"leaf": True})
+            if finals and not any(e is not None and lifted(_safe_under(p, e, under)) for e, _at in finals):
+                problems.append(("fluent-leaf-not-lifted", "no leaf is written through the fluent's untyped_representation", None))
+        # -- numbers
+        if "integer" in atoms:
+            val = {"leaf": True, "func": False, "integer": False}
+            if "float" in atoms:
+                val["float"] = True
+            finals, under = finals_under(val)
+            for e, _at in finals:
+                if e is None:
+                    continue
+                tr = _safe_under(p, e, under)
+                if any("attr:value" in x and any(st in TRUNCATING_STEPS for st in _after(x, "attr:value")) for x in tr):
+                    problems.append(("non-integral-number-truncated", f"a number that is NOT integral can be written as {unparse(e, 50)!r}: its fraction is cut off", e))
+                    break
+        finals, under = finals_under({"leaf": True, "func": False})
+        for e, _at in finals:
+            pf = _precision_format(e) if e is not None else None
+            if pf is None:
+                continue
+            v, d = pf
+            vt = _safe_under(p, v, under)
+            dparam = [x for x in f.params if x == "decimal_digits"]
+            if (vt and not any("attr:value" in x for x in vt)) or (dparam and L.is_param(p, v, "decimal_digits")) or \
+                    (not isinstance(d, int) and any("attr:value" in x for x in _safe_under(p, d, under))):
+                problems.append(("format-arguments-misplaced", f"{unparse(e, 70)} does not format the node's value with the requested precision "
+                                 f"(value and number of digits are in each other's place)", e))
+                break
+        # -- class tests ask isinstance(<value>, <class>)
+        for c in L.calls_in(f.node):
+            if isinstance(c.func, ast.Name) and c.func.id == "isinstance" and len(c.args) == 2 and is_value(c.args[1]) and not is_value(c.args[0]):
+                problems.append(("class-test:value-as-class", f"{unparse(c, 60)} has the node's value where the class belongs: TypeError for every leaf that reaches it", c))
+                break
+        if problems:
+            for role, text, node in problems:
+                r.fail(Finding(rid, f, role, f"{spec}: {text}", node=node))
+        else:
+            r.ok({"printer": f.qn, "layout": layout, "atoms": sorted(atoms)})
+    r.require_sites(len(TREE_LAYOUT))
+    return r
+
+
+def _safe_under(p, e, under):
+    try:
+        return p.trace(e, under=under)
+    except (KeyError, RecursionError):
+        return set()
+
+
+RETURN_SITES = BALANCE_SITES + ["DomainExporter.write_constants", "DomainExporter.write_types", "DomainExporter.write_functions",
+                                "NumericalExpressionTree.to_pddl", "NumericalExpressionTree.to_mathematical"]
+
+
+def rule_returns(repo: Repo, rid: str = "C08.returns", sites: Optional[List[str]] = None) -> RuleResult:
+    """every way through a printer ends in `return <text>` (or raises): a path that reaches the end of the body, of an inlined helper's
+    body, or a bare `return`, makes the caller write the word None into the file"""
+    r = RuleResult(rid, "every path through a printer returns a text (none falls off the end / returns None)",
+                   "the exported file contains the text of every part, never the word None")
+    trivial = lambda e: None
+    for spec in (sites or RETURN_SITES):
+        f = U.fn(repo, spec)
+        r.site(f.qn)
+        if any(isinstance(n, (ast.Yield, ast.YieldFrom)) for n in ast.walk(f.node)):
+            r.ok({"printer": f.qn, "generator": True})
+            continue
+        G = L.Guards(f, trivial)
+        seen = G.reach({})
+        g = G.g
+        why = None
+        ends = {a for a, _l in g.pred[g.exit] if a in seen and g.kind[a] not in ("return", "raise")}
+        if ends and U.consistent_path(f, {g.exit}, avoid={n for n in g.nodes() if g.kind[n] in ("return", "raise")} | {g.raise_}) is True:
+            why = "the end of the body can be reached without a return"
+        for e, _at in ([] if why else U.final_values(G, {}, seen)):
+            if e is None or (isinstance(e, ast.Constant) and e.value is None):
+                why = "a path returns None"
+            elif isinstance(e, ast.Name) and e.id.startswith("__ret__") and U.may_be_unbound(f, e):
+                why = "the body of a helper that produces the text can end without a return"
+            if why:
+                break
+        if why:
+            r.fail(Finding(rid, f, "no-text-returned", f"{spec}: {why}; the caller writes 'None' where this text belongs"))
+        else:
+            r.ok({"printer": f.qn, "every_path_returns_text": True})
+    r.require_sites(len(sites or RETURN_SITES))
+    return r
+
+
+# (printer, how the collection is rooted: "param" = attribute of the first parameter / "self", attribute, reason)
+SECTION_TABLE = [
+    ("DomainExporter.extract_domain", "param", "requirements", "the requirement flags"),
+    ("DomainExporter.extract_domain", "param", "types", "(:types ..)"),
+    ("DomainExporter.extract_domain", "param", "predicates", "(:predicates ..)"),
+    ("DomainExporter.extract_domain", "param", "constants", "(:constants ..) is optional in the text, not in the domain: written whenever there is a constant"),
+    ("DomainExporter.extract_domain", "param", "functions", "(:functions ..) is written whenever there is a function"),
+    ("DomainExporter.extract_domain", "param", "actions", "the actions"),
+    ("Action.effects_to_pddl", "self", "discrete_effects", "add / delete effects"),
+    ("Action.effects_to_pddl", "self", "numeric_effects", "numeric effects are written whenever there is one"),
+    ("Action.effects_to_pddl", "self", "conditional_effects", "(when ..) effects"),
+    ("Action.effects_to_pddl", "self", "universal_effects", "(forall ..) effects"),
+]
+SIZE_CLASS = {1: "exactly one element", 2: "two or more elements"}
+
+
+def _undecided_about(G, p, under, seen, root: tuple) -> bool:
+    """is there a reachable test (branch, conditional expression, filter) that the valuation leaves open and that reads something derived
+    from the collection `root`?"""
+    g = G.g
+    val = under[0]
+    tests: List[ast.AST] = []
+    for n in seen:
+        st = g.stmt[n]
+        if g.kind[n] == "if" and not getattr(st, "_inline_block", False):
+            tests.append(st.test)
+        h = C.header(st) if st is not None else None
+        if h is not None:
+            for x in ast.walk(h):
+                if isinstance(x, ast.IfExp):
+                    tests.append(x.test)
+                elif isinstance(x, ast.comprehension):
+                    tests += x.ifs
+    for t in tests:
+        if C.eval3(t, val) is not None:
+            continue
+        for x in ast.walk(t):
+            if isinstance(x, (ast.Name, ast.Attribute, ast.Call, ast.Subscript)) and isinstance(getattr(x, "ctx", ast.Load()), ast.Load):
+                if any(y[:2] == root for y in _safe_under(p, x, under)):
+                    return True
+    return False
+
+
+def rule_sections(repo: Repo, rid: str = "C08.sections", table=None) -> RuleResult:
+    """a collection of the printed object is in the text whenever it is NOT EMPTY: for a collection of one element and for one of two or
+    more (the size tests of the printer evaluated for that size), every text the printer can return contains a piece that is made from the
+    collection.  (`if len(xs) > 0` around the section is fine, `> 1`, `== 0` or a negated test drop declarations.)"""
+    from .. import strshape as S
+    r = RuleResult(rid, "a collection of the printed object is part of the text whenever it has one element / two or more elements",
+                   "the re-parsed domain has the same constants, functions, effects ... as the source, however many there are")
+    for spec, rootkind, attr, _why in (table or SECTION_TABLE):
+        f = U.fn(repo, spec)
+        p = L.prov(repo, f)
+        if rootkind == "self":
+            root = ("self", f"attr:{attr}")
+        else:
+            params = [x for x in f.params if x != f.self_name]
+            if not params:
+                raise AnalysisError(f"{spec}: parameter with the printed object not found")
+            root = (f"param:{params[0]}", f"attr:{attr}")
+        G = L.Guards(f, U.size_matcher(f, p, {root: attr}))
+        ev = U.Evaluator(repo, f)
+        r.site(f"{f.qn} [{attr}]")
+        bad = None
+        for size in (1, 2):
+            val = U.size_valuation(G.atoms_seen, attr, size)
+            seen = G.reach(val)
+            under = G.under(val, seen)
+            finals = U.final_values(G, val, seen)
+            if not finals:
+                continue
+            if _undecided_about(G, p, under, seen, root):
+                continue        # a test on something made from the collection (its text, a count ..) that the size does not decide: no claim
+            for e, _at in finals:
+                if e is None:
+                    continue
+                try:
+                    sh = ev.string(e)
+                except Exception:
+                    continue
+                if S.unknowns(sh):
+                    continue
+                for br in U.branches_under(sh, under[0]):
+                    hs = S.holes(br)
+                    has = False
+                    for h in hs:
+                        inner = h.value if isinstance(h, ast.FormattedValue) else h
+                        try:
+                            tr = p.trace(inner, under=under)
+                        except (KeyError, RecursionError):
+                            has = True      # not interpreted: no claim
+                            break
+                        if any(x[:2] == root for x in tr):
+                            has = True
+                            break
+                    if not has:
+                        bad = (size, S.render(br, lambda n: unparse(n, 30)))
+                        break
+                if bad:
+                    break
+            if bad:
+                break
+        if bad:
+            short = bad[1] if len(bad[1]) < 100 else bad[1][:97] + "..."
+            r.fail(Finding(rid, f, f"collection-dropped:{attr}", f"with {SIZE_CLASS[bad[0]]} in {attr}, {spec} can return the text {short!r} "
+                           f"that contains nothing of {attr}: these declarations are missing after re-parsing"))
+        else:
+            r.ok({"printer": f.qn, "collection": attr, "written_when_non_empty": True})
+    r.require_sites(len(table or SECTION_TABLE))
     return r
 
 
@@ -641,4 +1168,4 @@ def rules(repo: Repo, tier: str) -> List[RuleResult]:
     return [rule_fields(repo, "C08.fields", FIELD_TABLE), rule_typedparams(repo), rule_nocollapse(repo), rule_operand_kinds(repo), rule_polarity(repo), rule_keywords(repo),
             rule_balance(repo, "C08.balance", BALANCE_SITES), rule_order(repo), rule_options(repo),
             # numeric constants of preconditions / effects survive the export up to the print precision (the tree printer is part of the writer)
-            c13.rule_round(repo, "C08.round", ["NumericalExpressionTree.to_pddl"]), rule_allconstants(repo)]
+            c13.rule_round(repo, "C08.round", ["NumericalExpressionTree.to_pddl"]), rule_allconstants(repo), rule_allconstants(repo, "C08.alltypes", "DomainExporter.write_types", "type"), rule_sections(repo), rule_returns(repo), rule_switch(repo), rule_treetext(repo)]
